@@ -9,4 +9,11 @@ namespace MVoro.Obl
 
 theorem cellLocAxes_componentwise : Gen.cellLocAxes = [0, 1, 2] := by decide
 
+/-- `closest_loc` clamps every coordinate to `[loc, loc + width]` of the SAME coordinate: it is `Knn.closestLoc`, whose value
+is the closest point of the cell (`KnnProofs.clampAxis_closest`) and makes `min_distance_squared` a lower bound -/
+theorem closestLoc_componentwise : Gen.closestLocAxes = [(0, 0, 0), (1, 1, 1), (2, 2, 2)] := by decide
+
+/-- `min_distance_to_face` uses each width component exactly once, with its own coordinate -/
+theorem minDistToFace_componentwise : Gen.minDistToFaceWidthAxes = [0, 1, 2] := by decide
+
 end MVoro.Obl
